@@ -111,9 +111,13 @@ step1:
 	// Use parse256(I_L) as secret key
 	key, err := curve.NewPrivateKey(left)
 	// If the secret key is invalid, set S ← I and recompute I
-	if err != nil {
+	if errors.Is(err, ErrInvalidKey) {
 		seed = inter
 		goto step1
+	}
+	// any other error is permanent
+	if err != nil {
+		return nil, fmt.Errorf("failed to create the master key: %w", err)
 	}
 
 	// use I_R as chain code
